@@ -98,3 +98,22 @@ func (c *Controller) VerifGroupState(nodegroup string) (minNodes, maxNodes, scal
 	return state.Opts.MinNodes, state.Opts.MaxNodes, state.scaleDelta,
 		append([]string(nil), state.taintTracker...), append([]string(nil), state.forceTaintTracker...), true
 }
+
+// VerifUseListers replaces the informer-backed listers of a controller built by the real NewController with
+// listers over the given backing listers, built by the same constructors NewClient uses.
+func (c *Controller) VerifUseListers(allPodLister v1lister.PodLister, allNodeLister v1lister.NodeLister) {
+	for _, ng := range c.Opts.NodeGroups {
+		var lister *NodeGroupLister
+		if ng.Name == DefaultNodeGroup {
+			lister = NewDefaultNodeGroupLister(allPodLister, allNodeLister, ng)
+		} else {
+			lister = NewNodeGroupLister(allPodLister, allNodeLister, ng)
+		}
+		c.Client.Listers[ng.Name] = lister
+		if state, ok := c.nodeGroups[ng.Name]; ok {
+			state.NodeGroupLister = lister
+		}
+	}
+	c.Client.allPodLister = allPodLister
+	c.Client.allNodeLister = allNodeLister
+}
